@@ -152,6 +152,8 @@ def targeted_programs():
         ("oversized-first", W([0, 1, 2]), T([1, 2, 3]), {"k": "l", "x": [951, 2, 3]}),
         ("oversized-middle", W([0, 1, 2]), T([1, 2, 3]), {"k": "l", "x": [1, 1000, 3]}),
         ("oversized-last", W([0, 1, 2]), T([1, 2, 3]), {"k": "l", "x": [1, 2, 951]}),
+        ("oversized-after-zero", W([0, 1, 2]), T([1, 2, 3]), {"k": "l", "x": [0, 1000, 3]}),
+        ("oversized-after-zeros", W([0, 1, 2, 3]), T([1, 2, 3, 4]), {"k": "l", "x": [0, 0, 5, 2000]}),
         # numbers and Tip members mixed: the order of the TIPS counts, not the order of the raw values (Tip.T4 has value 8)
         ("mixed-ascending", W([0, 1]), [["tip", 4], ["int", 5]], {"k": "l", "x": [10, 20]}),
         ("mixed-descending", W([0, 1]), [["int", 5], ["tip", 4]], {"k": "l", "x": [10, 20]}),
@@ -169,6 +171,15 @@ def targeted_programs():
                              "lc": "Water", "label": "foreign"},
                             {"op": opn, "lw": 0, "wells": W([3, 4]), "tips": T([4, 5]), "vols": {"k": "l", "x": [5, 6]}, "lc": "Water", "label": "list"}]
                 progs.append(h)
+    # a plate with more than 100 columns: columns 10 and 100 .. 109 are different columns; liquid classes are taken literally
+    wide = [gen.mk_plate("wide", 8, 110, 0, 3000, [1500] * 880), gen.mk_trough("trough", 4, 2, 0, 5000, [2500, 2500])]
+    h = gen.header("evo/wide-plate", "evo", Fraction(1), 950, wide, flags={"comp": False, "norm": False})
+    h["ops"] = [{"op": "evo_aspirate", "lw": 0, "wells": {"k": "l", "x": [[0, 9], [1, 99]]}, "tips": T([1, 2]), "vols": {"k": "s", "x": 10}, "lc": "W", "label": "A10 and B100"},
+                {"op": "evo_aspirate", "lw": 0, "wells": {"k": "l", "x": [[0, 99], [1, 100]]}, "tips": T([1, 2]), "vols": {"k": "s", "x": 10}, "lc": "W", "label": "A100 and B101"},
+                {"op": "evo_aspirate", "lw": 0, "wells": {"k": "l", "x": [[0, 100], [3, 100]]}, "tips": T([1, 4]), "vols": {"k": "l", "x": [10, 20]}, "lc": "Serum ", "label": "A101 and D101"},
+                {"op": "evo_dispense", "lw": 0, "wells": {"k": "l", "x": [[2, 109], [5, 109], [7, 109]]}, "tips": T([3, 6, 8]), "vols": {"k": "s", "x": 7}, "lc": " padded class", "label": "column 110"},
+                {"op": "evo_dispense", "lw": 0, "wells": {"k": "l", "x": [[0, 10], [1, 109]]}, "tips": T([1, 2]), "vols": {"k": "s", "x": 7}, "lc": "W", "label": "A11 and B110"}]
+    progs.append(h)
     # evo_dispense with per-well compositions, wells (and tips) listed bottom-up
     lw4 = [gen.mk_plate("plate", 8, 3, 0, 3000, [100] * 8 + [0] * 16), gen.mk_trough("trough", 4, 2, 0, 5000, [2500, 2500])]
     h = gen.header("evo/compositions", "evo", Fraction(1), 950, lw4, flags={"comp": True, "norm": False})
